@@ -7,5 +7,5 @@ CONSTANTS
   Menu <- FullMenu
 VIEW KVView
 INVARIANTS TypeOK KeyIsBody
-PROPERTIES P_ReplyType P_FailedUnchanged P_ReadsUnchanged P_Frame P_Create P_Update P_Get P_Delete P_Query P_List
+PROPERTIES P_ReplyType P_FailedUnchanged P_ReadsUnchanged P_Frame P_Create P_Update P_Modify P_Get P_Delete P_Query P_List
 CHECK_DEADLOCK FALSE
